@@ -125,8 +125,9 @@ def _svc():
 
 
 def _family(cls):
+    """the modelled parser family a class belongs to (first class of the MRO that the FAMILIES table knows)"""
     for k in cls.__mro__:
-        if "_from_pdu" in k.__dict__:
+        if k.__name__ in FAMILIES:
             return k.__name__
     return "?"
 
@@ -256,8 +257,11 @@ def classify(b: bytes, impl: str, model: str):
     return (f"sid{b[0]:02x}:{iv}-where-oracle-{mv}" if b else f"empty:{iv}-where-oracle-{mv}", False, f"{iv} where the oracle says {mv}")
 
 
-def shrink(ctx, b: bytes, cat: str) -> bytes:
-    """fixed-order minimisation keeping the same category: drop bytes (from the end first), then lower bytes"""
+def shrink(ctx, b: bytes, cat: str, impl_fn=None, exp_fn=None) -> bytes:
+    """fixed-order minimisation keeping the same category: drop bytes (from the end first), then lower bytes.
+    impl_fn: list of byte strings -> implementation views; exp_fn: (bytes, oracle view) -> expected view"""
+    impl_fn = impl_fn or _impl_many
+    exp_fn = exp_fn or (lambda _b, mv: mv)
     cur = b
     for _ in range(64):
         cands = []
@@ -275,11 +279,11 @@ def shrink(ctx, b: bytes, cat: str) -> bytes:
         cands = list(dict.fromkeys(c for c in cands if c))
         if not cands:
             break
-        iv = _impl_many(cands)
+        iv = impl_fn(cands)
         mv, _ = model_batch(ctx, cands)
         nxt = None
         for c, i_, m_ in zip(cands, iv, mv):
-            r = classify(c, i_, m_)
+            r = classify(c, i_, exp_fn(c, m_))
             if r and r[0] == cat:
                 nxt = c
                 break
@@ -582,7 +586,7 @@ def run(ctx):
     found = {}
     for (label, b, exp), iv, mv, mraw in zip(inputs, impl, model, model_raw):
         ctx.ev()
-        ctx.kind(label if label.startswith(("mut", "short")) else "valid")
+        ctx.kind(label if label.startswith(("mut", "short")) else "valid:" + FAM_OF.get(label[6:], label[6:]))
         if b and (b[0] in known_sids):
             ctx.nontrivial(b)
         if mraw.startswith("reject "):
@@ -598,8 +602,10 @@ def run(ctx):
         if r and r[0] not in found:
             found[r[0]] = (b, iv, mv, r)
     ctx.traces_validated += len(inputs)
+    seen_cls = set()
     for lab, b, exp in inputs:
-        if lab.startswith("valid") and len(ctx.samples) < 6 and len(b) < 24:
+        if lab.startswith("valid") and lab not in seen_cls and len(b) < 24:
+            seen_cls.add(lab)
             ctx.sample({"pdu": hx(b), "view": exp})
     for cat, (b, iv, mv, r) in found.items():
         sb = shrink(ctx, b, cat)
@@ -644,16 +650,109 @@ def run(ctx):
     ctx.traces_validated += len(con)
 
 
+    # 5. the class-level entry point <Response>.from_pdu(b) of every concrete response class (registry classes and the
+    #    convenience subclasses that parse_dynamic never returns)
+    import inspect
+
+    def walk(c):
+        for k in c.__subclasses__():
+            yield k
+            yield from walk(k)
+
+    reg_names = {r[0] for r in rows}
+    classes = sorted({k for k in walk(S.UDSResponse) if not inspect.isabstract(k) and not k.__name__.startswith("_")
+                      and k.__module__ == S.__name__}, key=lambda k: k.__name__)
+    by_first = {}
+    for (lab, b, _), mv in zip(inputs, model):
+        if b and not lab.startswith("short:len3"):
+            by_first.setdefault(b[0], []).append((b, mv))
+    cap = ctx.pick(1500, 12000)
+    n_cls = 0
+    for C in classes:
+        name = C.__name__
+        neg = issubclass(C, S.NegativeResponseBase)
+        first = 0x7F if neg else C.RESPONSE_SERVICE_ID
+        if first is None:
+            pool = [x for k in sorted(by_first) for x in by_first[k][:40]]
+        else:
+            pool = by_first.get(first, [])
+        if len(pool) > cap:
+            pool = rng.sample(pool, cap)
+        fam = _family(C)
+        param = None
+        if name not in reg_names and fam == "InputOutputControlByIdentifierResponse":
+            try:
+                param = C(0).control_status_record[:1].hex()
+            except Exception:
+                param = None
+        if name not in reg_names:
+            FAM_OF[name] = fam + "/subclass"
+
+        def expect(b, mv, name=name, param=param):
+            if name in reg_names:
+                return mv if mv.startswith(f"ok {name} ") else "reject"
+            if param is not None:
+                v, cls_, fl, _p = _parse_view(mv)
+                if v == "ok" and cls_ == "InputOutputControlByIdentifierResponse" and fl.get("rec", "").startswith(param):
+                    return mv.replace("ok InputOutputControlByIdentifierResponse ", f"ok {name} ", 1)
+                return "reject"
+            return None  # no oracle view: specification check only
+
+        def impl_cls(bs, C=C):
+            out = []
+            for b in bs:
+                try:
+                    out.append(view_obj(C.from_pdu(b)))
+                except Exception:
+                    out.append("reject")
+            return out
+
+        def exp_or_impl(b, mv):
+            e = expect(b, mv)
+            return e if e is not None else impl_cls([b])[0]
+
+        found_c = {}
+        for (b, mv), iv in zip(pool, impl_cls([b for b, _ in pool])):
+            ctx.ev()
+            n_cls += 1
+            r = classify(b, iv, exp_or_impl(b, mv) if expect(b, mv) is None else expect(b, mv))
+            if r and r[0] not in found_c:
+                found_c[r[0]] = (b, r)
+        ctx.kind(*(["from_pdu"] * len(pool)))
+        for cat, (b, r) in found_c.items():
+            sb = shrink(ctx, b, cat, impl_cls, exp_or_impl)
+            siv = impl_cls([sb])[0]
+            smv = exp_or_impl(sb, model_batch(ctx, [sb])[0][0])
+            ctx.disagree(f"from_pdu:{cat}", f"{name}.from_pdu({hx(sb)}): {classify(sb, siv, smv)[2]}",
+                         {"pdu": hx(sb), "class": name, "found_as": hx(b)}, impl=siv, model=smv, spec_violated=r[1],
+                         site=f"{name}.from_pdu")
+    ctx.traces_validated += n_cls
+    ctx.notes["from_pdu_classes"] = [k.__name__ for k in classes]
+
+
 def replay(ctx, case):
     load_rows()
+    S = _svc()
     c = case.get("case", case)
     if "pdu" not in c:
         print(case)
         return 0
     b = bytes.fromhex(c["pdu"]) if c["pdu"] != "-" else b""
-    iv = impl_view(b)
     mv = model_batch(ctx, [b])[0][0]
     print("input  :", hx(b))
+    if "class" in c:
+        try:
+            iv = view_obj(getattr(S, c["class"]).from_pdu(b))
+        except Exception as e:
+            iv = "reject"
+            print("raised :", repr(e))
+        print(f"impl   : {c['class']}.from_pdu ->", iv)
+        print("oracle (parse_dynamic view):", mv)
+        v = _parse_view(iv)
+        bad = v[0] == "ok" and v[3] != hx(b)
+        print("verdict:", "re-serialised bytes differ from the received ones" if bad else "bytes kept / rejected")
+        return int(bad)
+    iv = impl_view(b)
     print("impl   :", iv)
     print("oracle :", mv)
     r = classify(b, iv, mv)
